@@ -26,6 +26,9 @@ REQUIRE = {'snapshots_measured': 150, 'bit_budget': 20, 'bit_string': 20, 'bit_c
            'order_checked': 20}
 
 
+default_limits = snapcheck.default_limits
+
+
 def plan(tier, seed):
     n = {'quick': 640, 'thorough': 9600}[tier]
     return split_seeds('b%s' % seed, n, 16, 'bounds')
@@ -151,7 +154,7 @@ def case_bounds(seed, out, spec, wd):
         lim = {'max_vars': r.pick([1, 2, 3, 5, 8, 13, 20, 40]), 'max_str': r.pick([1, 4, 16, 40]),
                'max_coll': r.pick([1, 2, 3, 7, 10]), 'max_depth': r.pick([3, 4, 5, 6, 8])}
     else:
-        lim = {'max_vars': 1000, 'max_str': 1024, 'max_coll': 10, 'max_depth': 5}
+        lim = default_limits()
     nloc = r.randrange(1, 7)
     names = ['v%d' % i for i in range(nloc)]
     big_at = r.pick(['first', 'middle', 'last'])
